@@ -251,6 +251,12 @@ func qModel(kind string, capN int, ctrlCap int) porcupine.Model {
 			return o.Code == "false", st
 		case "len":
 			return o.V == n, st
+		case "isclosed":
+			want := "false"
+			if s.closed {
+				want = "true"
+			}
+			return o.Code == want, st
 		}
 		return false, st
 	}
@@ -289,6 +295,9 @@ func drawC12(rt *rapid.T) interface{} {
 		choices = []string{"add", "add", "addprior", "addctrl", "addctrl", "addpriorctrl", "pop", "popanyway", "popanyway", "close", "tryclose", "tryclear", "addanyway", "addctrlanyway"}
 	default:
 		choices = []string{"add", "add", "add", "addprior", "pop", "popanyway", "popanyway", "close", "addanyway"}
+	}
+	if sc.Kind == KAsync || sc.Kind == KMux || sc.Kind == KMQ {
+		choices = append(choices, "isclosed")
 	}
 	nt := rapid.IntRange(1, 4).Draw(rt, "ntasks")
 	maxOps := 14 / nt // concurrent histories are kept short: porcupine has to search the orders of overlapping adds,
@@ -367,6 +376,11 @@ func doOp(q Queue, op qOp) qOut {
 		return qOut{Code: strconv.FormatBool(q.TryClear())}
 	case "len":
 		return qOut{V: q.Len()}
+	case "isclosed":
+		if q.(IsCloseder).IsClosed() {
+			return qOut{Code: "true"}
+		}
+		return qOut{Code: "false"}
 	}
 	panic("bad op " + op.Op)
 }
